@@ -944,7 +944,7 @@ theorem inv_setCli {s : Conn} {i : Nat} {v : CliSess} (hI : InvX s (some (.creat
   · intro j cs' _ hj hs
     rcases hset j cs' hj with ⟨_, y⟩ | ⟨y1, y2⟩
     · subst y; rw [hv] at hs; cases hs
-    · exact hI.cliS j cs' (by simpa using y1) y2 hs
+    · exact hI.cliS j cs' (by simpa using fun h => y1 h.symm) y2 hs
   · intro j cs' hj hs
     rcases hset j cs' hj with ⟨_, y⟩ | ⟨y1, y2⟩
     · subst y; exact hk
@@ -962,7 +962,7 @@ theorem inv_createStart {s : Conn} {i : Nat} (hI : InvX s (some (.createStart i)
     intro j cs _ hj hs
     by_cases hji : j = i
     · subst hji; rw [hc] at hj; cases hj
-    · exact hI.cliS j cs (by simpa using hji) hj hs
+    · exact hI.cliS j cs (by simpa using fun h => hji h.symm) hj hs
   | some cs =>
     simp only
     split
@@ -973,7 +973,7 @@ theorem inv_createStart {s : Conn} {i : Nat} (hI : InvX s (some (.createStart i)
       intro j cs' _ hj hs
       by_cases hji : j = i
       · subst hji; rw [hc] at hj; cases hj; rw [hst] at hs; cases hs
-      · exact hI.cliS j cs' (by simpa using hji) hj hs
+      · exact hI.cliS j cs' (by simpa using fun h => hji h.symm) hj hs
     · split
       · exact inv_setCli hI rfl (Or.inl rfl)
       · rename_i hst ht
@@ -984,5 +984,280 @@ theorem inv_createStart {s : Conn} {i : Nat} (hI : InvX s (some (.createStart i)
           (fun _ e hm => by have := hI.kb _ e hm; omega)
         exact inv_setCli (s := { s with chans := _ }) hadd rfl
           (Or.inr ⟨s.chans.length, rfl, by simp⟩)
+
+theorem inv_reportGlobalFalse {s : Conn} (hI : Inv s) : Inv (reportGlobalFalse s) := by
+  unfold reportGlobalFalse
+  have h0 : Inv ({ s with gqueue := s.gqueue - 1 } : Conn) :=
+    hI.congr ⟨rfl, rfl, rfl, rfl, rfl, rfl, rfl, rfl, rfl, rfl⟩ rfl
+  have h1 : Inv (({ s with gqueue := s.gqueue - 1 } : Conn).send .gfailure) := inv_send h0 _
+  simp only
+  split
+  · exact inv_enq h1 _ (by simp) (by simp)
+  · exact h1
+
+theorem inv_finishPF {s : Conn} (hI : Inv s) (j : Nat) : Inv (finishPF s j) := by
+  unfold finishPF
+  split
+  · exact hI
+  · rename_i hown
+    have hown' : s.owner = true := by simpa using hown
+    have h0 : Inv { s with ownerTrace := s.ownerTrace ++ [.serverRequested], pfs := s.pfs ++ [({} : PF)] } := by
+      refine ⟨hI.chans, hI.closed, hI.cc1, hI.cc2, ?_, ?_, hI.wakeQ, hI.okQ, hI.k2, hI.kb, hI.greq, hI.cliS, hI.cliK⟩
+      · intro ho; simp only [runOdfa_snoc, hI.ownerT ho]; rfl
+      · intro ho; simp only at ho; rw [hown'] at ho; cases ho
+    simp only
+    split
+    · exact h0.congr ⟨rfl, rfl, rfl, rfl, rfl, rfl, rfl, rfl, rfl, rfl⟩ rfl
+    · exact inv_reportGlobalFalse h0
+
+theorem inv_greqStart {s : Conn} {i : Nat} (hI : InvX s (some (.greqStart i))) :
+    Inv (if s.transport = false then { s with greqs := s.greqs.set i .listenErr }
+         else ({ s with gwaiters := s.gwaiters ++ [i] } : Conn).send .greq) := by
+  split
+  · refine ⟨hI.chans, hI.closed, hI.cc1, fun _ => hI.cc2 (by simp), hI.ownerT, hI.ownerF,
+      fun k c _ => hI.wakeQ k c (by simp), fun k c _ => hI.okQ k c (by simp), hI.k2, hI.kb, ?_,
+      fun j cs _ => hI.cliS j cs (by simp), hI.cliK⟩
+    intro j _ hj
+    simp only at hj
+    rw [List.getElem?_set] at hj
+    split at hj
+    · split at hj
+      · cases hj
+      · cases hj
+    · rename_i hne
+      exact hI.greq j (by simpa using hne) hj
+  · rename_i ht
+    have ht' : s.transport = true := by simpa using ht
+    obtain ⟨hce, _, _⟩ := live_facts hI ht'
+    refine inv_send ?_ _
+    refine ⟨hI.chans, ?_, hI.cc1, fun _ => hI.cc2 (by simp), hI.ownerT, hI.ownerF,
+      fun k c _ => hI.wakeQ k c (by simp), fun k c _ => hI.okQ k c (by simp), hI.k2, hI.kb, ?_,
+      fun j cs _ => hI.cliS j cs (by simp), hI.cliK⟩
+    · intro hx; simp only at hx; rw [hce] at hx; cases hx
+    · intro j _ hj
+      by_cases hji : j = i
+      · subst hji; right; simp
+      · rcases hI.greq j (by simpa using fun h => hji h.symm) hj with y | y
+        · exact Or.inl y
+        · right; simp only; exact List.mem_append_left _ y
+
+/-- one entry of the ready queue is executed -/
+theorem inv_runHead {s : Conn} (hI : Inv s) : Inv (runHead s) := by
+  unfold runHead
+  cases hr : s.ready with
+  | nil => simp only; exact hI
+  | cons it rest =>
+    simp only
+    have hp := inv_pop hI hr
+    cases it with
+    | chanCleanup k e =>
+      have hno := head_cleanup_no_ok hI hr k (Or.inl ⟨e, rfl⟩)
+      have h0 := hp.unexempt (by simp) (by simp) (by simp) (by simp)
+      exact inv_withChan_closing h0 (by simp) (fun c hc => cleanup_closing e c (h0.chans k c hc).1) hno
+    | connCleanup e =>
+      have ht : s.transport = false := hI.cc1 ⟨e, by rw [hr]; exact List.mem_cons_self ..⟩
+      exact inv_connCleanup hp ht (fun k c hc => head_cleanup_no_ok hI hr k (Or.inr ⟨e, rfl⟩) c hc)
+    | transportAbort =>
+      exact (hp.unexempt (by simp) (by simp) (by simp) (by simp)).congr
+        ⟨rfl, rfl, rfl, rfl, rfl, rfl, rfl, rfl, rfl, rfl⟩ rfl
+    | createStart i => exact inv_createStart hp
+    | createWake k =>
+      refine inv_withChan_plain hp (Or.inr ⟨rfl, rfl⟩) goodErr_ignore ?_ (fun _ c _ => createWake_wakeVal c)
+      intro c hc
+      exact createWake_plain c (hp.chans k c hc).1 (fun hw => (hI.okQ k c (by simp) hc hw).1)
+    | startReading k =>
+      have h0 := hp.unexempt (by simp) (by simp) (by simp) (by simp)
+      exact inv_withChan_plain h0 (Or.inl rfl) goodErr_forceClose
+        (fun c hc => startReading_plain c (h0.chans k c hc).1) (fun h => by cases h)
+    | finishOpen k =>
+      have h0 := hp.unexempt (by simp) (by simp) (by simp) (by simp)
+      exact inv_withChan_plain h0 (Or.inl rfl) goodErr_ignore
+        (fun c hc => finishOpen_plain c (h0.chans k c hc).1) (fun h => by cases h)
+    | finishOpenResume k g =>
+      have h0 := hp.unexempt (by simp) (by simp) (by simp) (by simp)
+      exact inv_withChan_plain h0 (Or.inl rfl) goodErr_ignore
+        (fun c hc => finishOpenResume_plain g c (h0.chans k c hc).1) (fun h => by cases h)
+    | greqStart i => exact inv_greqStart hp
+    | finishPF j => exact inv_finishPF (hp.unexempt (by simp) (by simp) (by simp) (by simp)) j
+    | finishPFResume j =>
+      exact inv_reportGlobalFalse (hp.unexempt (by simp) (by simp) (by simp) (by simp))
+
+theorem inv_runN (n : Nat) {s : Conn} (hI : Inv s) : Inv (runN n s) := by
+  induction n generalizing s with
+  | zero => exact hI
+  | succ n ih => exact ih (inv_runHead hI)
+
+theorem inv_tick {s : Conn} (hI : Inv s) : Inv (tick s) := inv_runN _ hI
+
+/-- `disconnect()`'s loop over the channel table: `chan.close()` for each -/
+theorem inv_closeAll (n : Nat) {s : Conn} (hI : Inv s) : Inv (closeAll n s) := by
+  induction n with
+  | zero => exact hI
+  | succ n ih =>
+    simp only [closeAll]
+    split
+    · split
+      · exact inv_withChan_plain ih (Or.inl rfl) goodErr_ignore
+          (fun c hc => close_plain c (ih.chans n c hc).1) (fun h => by cases h)
+      · exact ih
+    · exact ih
+
+/-- a change of a channel's fields that no invariant mentions -/
+theorem inv_setChan_neutral {s : Conn} {k : Nat} {c c' : Chan} (hI : Inv s) (hc : s.chans[k]? = some c)
+    (hi : CInv c') (e1 : c'.reg = c.reg) (e2 : c'.openWaiter = c.openWaiter) (e3 : c'.wakeVal = c.wakeVal)
+    (e4 : c'.session = c.session) : Inv (setChan s k c') := by
+  have hp : Plain c (R.ok c') := plain_of_fields hi (by simp [R.ok]) e1 e2 e3 e4
+  have := inv_withChan_plain (f := fun _ => R.ok c') (onErr := ignoreErr) hI (Or.inl rfl) goodErr_ignore
+    (fun c0 hc0 => by rw [hc] at hc0; cases hc0; exact hp) (fun h => by cases h)
+  unfold withChan at this
+  rw [hc] at this
+  simpa [R.ok, applyActs] using this
+
+/-- a fresh task entry in the queue discharges the exemption that was made for it -/
+theorem InvX.discharge {s : Conn} {it : Item} (h : InvX s (some it)) (hm : it ∈ s.ready)
+    (h1 : ∀ e, it ≠ .connCleanup e) (h2 : ∀ k, it ≠ .createWake k) : InvX s none :=
+  ⟨h.chans, h.closed, h.cc1, fun _ => h.cc2 (fun e he => h1 e (by injection he)), h.ownerT, h.ownerF,
+   fun k c _ => h.wakeQ k c (fun he => h2 k (by injection he)),
+   fun k c _ => h.okQ k c (fun he => h2 k (by injection he)), h.k2, h.kb,
+   fun i _ hi => by
+     by_cases hx : it = .greqStart i
+     · left; rw [← hx]; exact hm
+     · exact h.greq i (fun he => hx (by injection he)) hi,
+   fun i cs _ hi hs => by
+     by_cases hx : it = .createStart i
+     · rw [← hx]; exact hm
+     · exact h.cliS i cs (fun he => hx (by injection he)) hi hs,
+   h.cliK⟩
+
+theorem getElem?_snoc {α : Type} (l : List α) (a : α) (j : Nat) (b : α) (hj : (l ++ [a])[j]? = some b) :
+    l[j]? = some b ∨ (j = l.length ∧ b = a) := by
+  rw [List.getElem?_append] at hj
+  split at hj
+  · exact Or.inl hj
+  · right
+    have : j - l.length = 0 := by
+      cases hd : j - l.length with
+      | zero => rfl
+      | succ n => rw [hd] at hj; simp at hj
+    rw [this] at hj; simp at hj
+    exact ⟨by omega, hj.symm⟩
+
+/-- an application-level operation on the connection endpoint -/
+theorem inv_connOp {s : Conn} (hI : Inv s) (o : ConnOp) : Inv (connOp s o).1 := by
+  cases o with
+  | open_ cfg =>
+    simp only [connOp]
+    have hce : InvX { s with cli := s.cli ++ [{ cfg := cfg }] } (some (.createStart s.cli.length)) := by
+      refine ⟨hI.chans, hI.closed, hI.cc1, fun _ => hI.cc2 (by simp), hI.ownerT, hI.ownerF,
+        fun k c _ => hI.wakeQ k c (by simp), fun k c _ => hI.okQ k c (by simp), hI.k2, hI.kb,
+        fun i _ => hI.greq i (by simp), ?_, ?_⟩
+      · intro j cs hx hj hs
+        rcases getElem?_snoc _ _ j cs hj with y | ⟨y1, _⟩
+        · exact hI.cliS j cs (by simp) y hs
+        · subst y1; exact absurd rfl hx
+      · intro j cs hj hs
+        rcases getElem?_snoc _ _ j cs hj with y | ⟨_, y⟩
+        · exact hI.cliK j cs y hs
+        · subst y; simp at hs
+    exact (inv_enq hce (.createStart s.cli.length) (by simp) (by simp)).discharge (by simp [Conn.enq]) (by simp) (by simp)
+  | chanOp i op =>
+    simp only [connOp]
+    cases hs : sessSlot s i with
+    | none => exact hI
+    | some k =>
+      simp only
+      cases hc : s.chans[k]? with
+      | none => exact hI
+      | some c =>
+        simp only
+        have := inv_withChan_plain (f := fun c => appOp c op) (onErr := ignoreErr) hI (Or.inl rfl) goodErr_ignore
+          (fun c0 hc0 => appOp_plain op c0 (hI.chans k c0 hc0).1) (fun h => by cases h)
+        unfold withChan at this
+        rw [hc] at this
+        simp only [ignoreErr] at this
+        split at this <;> exact this
+  | waitClosed i =>
+    simp only [connOp]
+    cases hs : sessSlot s i with
+    | none => exact hI
+    | some k =>
+      simp only
+      cases hc : s.chans[k]? with
+      | none => exact hI
+      | some c =>
+        simp only
+        obtain ⟨w1, w2, w3, w4, _, _, _⟩ := waitClosed_spec c
+        exact inv_setChan_neutral hI hc (waitClosed_inv c (hI.chans k c hc).1) w1 w2 w3 w4
+  | connWaitClosed =>
+    simp only [connOp]
+    split
+    · exact hI.congr ⟨rfl, rfl, rfl, rfl, rfl, rfl, rfl, rfl, rfl, rfl⟩ rfl
+    · rename_i hce
+      refine ⟨hI.chans, ?_, hI.cc1, hI.cc2, hI.ownerT, hI.ownerF, hI.wakeQ, hI.okQ, hI.k2, hI.kb, hI.greq, hI.cliS,
+        hI.cliK⟩
+      intro hx; exact absurd hx hce
+  | greq =>
+    simp only [connOp]
+    have hce : InvX { s with greqs := s.greqs ++ [.pending] } (some (.greqStart s.greqs.length)) := by
+      refine ⟨hI.chans, hI.closed, hI.cc1, fun _ => hI.cc2 (by simp), hI.ownerT, hI.ownerF,
+        fun k c _ => hI.wakeQ k c (by simp), fun k c _ => hI.okQ k c (by simp), hI.k2, hI.kb, ?_,
+        fun i cs _ => hI.cliS i cs (by simp), hI.cliK⟩
+      intro j hx hj
+      rcases getElem?_snoc _ _ j _ hj with y | ⟨y1, _⟩
+      · exact hI.greq j (by simp) y
+      · subst y1; exact absurd rfl hx
+    exact (inv_enq hce (.greqStart s.greqs.length) (by simp) (by simp)).discharge (by simp [Conn.enq]) (by simp) (by simp)
+  | grant j g =>
+    simp only [connOp]
+    cases hk : (s.srv[j]?).bind id with
+    | none => exact hI
+    | some k =>
+      simp only
+      cases hc : s.chans[k]? with
+      | none => exact hI
+      | some c =>
+        simp only
+        split
+        · exact hI
+        · have h1 : Inv (setChan s k { c with decided := some g }) :=
+            inv_setChan_neutral hI hc (cinv_congr (hI.chans k c hc).1 rfl rfl rfl rfl rfl rfl rfl rfl rfl rfl rfl rfl rfl rfl)
+              rfl rfl rfl rfl
+          split
+          · exact inv_enq h1 _ (by simp) (by simp)
+          · exact h1
+  | pfDecide j =>
+    simp only [connOp]
+    cases hp : s.pfs[j]? with
+    | none => exact hI
+    | some p =>
+      simp only
+      split
+      · exact hI
+      · refine inv_enq ?_ _ (by simp) (by simp)
+        exact hI.congr ⟨rfl, rfl, rfl, rfl, rfl, rfl, rfl, rfl, rfl, rfl⟩ rfl
+  | connClose =>
+    simp only [connOp]
+    exact inv_forceClose (inv_send (inv_closeAll _ hI) _) _
+  | connAbort => exact inv_forceClose hI _
+
+/-! ### every reachable state satisfies the invariant -/
+
+theorem inv_fresh (b : Bool) (w : Nat) (cfgs : List SrvCfg) (pf : List OpenMode) : Inv (Conn.fresh b w cfgs pf) := by
+  constructor <;> simp [Conn.fresh, hasConnCleanup, runOdfa, odfa]
+
+theorem inv_stepEv {s : Conn} (hI : Inv s) (ev : CEv) : Inv (s.stepEv ev) := by
+  cases ev with
+  | recv m => exact inv_recvMsg hI m
+  | run => exact inv_runHead hI
+  | op o => exact inv_connOp hI o
+  | lose r => exact inv_connectionLost hI r
+
+theorem inv_runEvs {s : Conn} (hI : Inv s) (evs : List CEv) : Inv (s.runEvs evs) := by
+  induction evs generalizing s with
+  | nil => exact hI
+  | cons ev rest ih => exact ih (inv_stepEv hI ev)
+
+theorem inv_reachable (b : Bool) (w : Nat) (cfgs : List SrvCfg) (pf : List OpenMode) (evs : List CEv) :
+    Inv ((Conn.fresh b w cfgs pf).runEvs evs) := inv_runEvs (inv_fresh b w cfgs pf) evs
 
 end AsyncsshModel.Lifecycle
